@@ -104,6 +104,9 @@ type FuncVC struct {
 	skolems     map[string][][]Term
 	funCache    map[string]string
 	stable      []*Loc
+	curInstr    ssa.Instruction
+	escapes     map[*ssa.Alloc][]ssa.Instruction
+	breach      map[*ssa.BasicBlock]map[*ssa.BasicBlock]bool
 	assignsOpaque bool
 
 	// statistics for the evidence file
@@ -140,7 +143,7 @@ func NewFuncVC(p *Prog, fn *ssa.Function, c *Contract) *FuncVC {
 		loopOf: map[*ssa.BasicBlock]*loopInfo{}, nonNil: map[ssa.Value]bool{}, localAlloc: map[*ssa.Alloc]bool{},
 		debugRefs: map[string][]*ssa.DebugRef{}, typeIDs: map[string]int{}, boxDecl: map[string]bool{},
 		funcDecl: map[string]bool{}, oblSeq: map[string]int{}, abstracted: map[string]int{},
-		assumedUsed: map[string]bool{}, contractUse: map[string]bool{}, iterOf: map[ssa.Value]*iterInfo{}, logicUsed: map[string]bool{}, logTypes: map[string]types.Type{}, axiomDone: map[*Clause]bool{}, skolems: map[string][][]Term{}, funCache: map[string]string{}}
+		assumedUsed: map[string]bool{}, contractUse: map[string]bool{}, iterOf: map[ssa.Value]*iterInfo{}, logicUsed: map[string]bool{}, logTypes: map[string]types.Type{}, axiomDone: map[*Clause]bool{}, skolems: map[string][][]Term{}, funCache: map[string]string{}, escapes: map[*ssa.Alloc][]ssa.Instruction{}}
 	if c != nil {
 		vc.watches = c.Watches
 		vc.bv = c.Mode == "bv"
